@@ -549,6 +549,12 @@ func run(id, tier, only string, workers int, trace bool, replayFile, solver stri
 			for _, o := range outs {
 				if v, ok := idx[o.Tag]; ok {
 					st := "not-reproduced"
+					if strings.HasPrefix(v.Msg, "engine:") && (o.Result == "passed" || o.Result == "violated") {
+						// observation that only the engine can make (stale-capacity read,
+						// input-dependent allocation size): the native run followed the
+						// same inputs without diverging, which is all it can confirm.
+						st = "reproduced"
+					}
 					if o.Result == "violated" {
 						for _, f := range o.Failed {
 							if f == v.Msg || (strings.HasPrefix(v.Msg, "no-panic") && strings.HasPrefix(f, "no-panic")) {
